@@ -606,9 +606,9 @@ class DEVSSimulator(Simulator[TIME], Generic[TIME]):
         if (not self._eventlist.is_empty() and self._eventlist.peek_first().time
                 <= self._replication.end_sim_time):
             event: SimEventInterface = self._eventlist.pop_first()
+            self._simulator_time = event.time
             self.fire_timed(event.time, Simulator.TIME_CHANGED_EVENT,
                             event.time)
-            self._simulator_time = event.time
             event.execute()
 
     def end_replication(self):
@@ -636,10 +636,13 @@ class DEVSSimulator(Simulator[TIME], Generic[TIME]):
             event: SimEventInterface = self.eventlist().pop_first()
             if not isinstance(event, SimEventInterface):
                 raise DSOLError(f"Invalid SimEvent {event} from eventlist")
-            if (event.time != self.simulator_time):
+            # the time is changed first, so listeners of TIME_CHANGED_EVENT that 
+            # schedule events do so relative to the time of the event to execute
+            time_changed: bool = event.time != self.simulator_time
+            self._simulator_time = event.time
+            if time_changed:
                 self.fire_timed(event.time, Simulator.TIME_CHANGED_EVENT,
                                 event.time)
-            self._simulator_time = event.time
             try:
                 event.execute()
             except Exception as e:
